@@ -394,8 +394,13 @@ func valueFacts(info *types.Info, root ast.Node) *FactSpec {
 							out = append(out, Effect{CopyFrom: from, CopyTo: lhs, DropMarks: true})
 						}
 						out = append(out, Effect{Assert: &Fact{"unmarked", lhs}}, Effect{Assert: &Fact{"deepunmarked", lhs}})
+					case "cty.Value.Type":
+						// ty := val.Type(): the local is an alias of the value's type
+						if from != "" && len(s.Lhs) == 1 {
+							out = append(out, Effect{CopyFrom: from + ".ty", CopyTo: lhs})
+						}
 					}
-				} else if len(s.Lhs) == 1 && isCtyValue(info.TypeOf(s.Rhs[0])) {
+				} else if len(s.Lhs) == 1 && (isCtyValue(info.TypeOf(s.Rhs[0])) || isCtyType(info.TypeOf(s.Rhs[0]))) {
 					if from := subjKey(info, s.Rhs[0]); from != "" && from != lhs {
 						out = append(out, Effect{CopyFrom: from, CopyTo: lhs})
 					}
